@@ -11,7 +11,7 @@ darklua or full_moon:
 * a first line starting with `#` is skipped (shebang);
 * names, numbers (Luau: `0x`, `0b`, `_` separators, exponents), quoted strings with backslash
   escapes (`\\z`, backslash-newline), long strings, Luau interpolated strings (back-ticks with
-  `{expr}` holes, nested), and the operator set of Luau with longest match.
+  `{expr}` holes, nested; `{{` is a lexical error as in Luau), and the operator set of Luau with longest match.
 
 `lex(data: bytes)` returns (tokens, comments) where
   tokens   = list of Tok(kind, text, line, start, end)       (code tokens only)
@@ -105,6 +105,9 @@ def lex(data):
                 j += 2
                 continue
             if c == 0x7B:
+                if j + 1 < n and data[j + 1] == 0x7B:
+                    # Luau: "double braces are not permitted within interpolated strings"
+                    raise LexError("double brace in interpolated string at byte %d" % j)
                 return j + 1, True
             if c == 0x0A or c == 0x0D:
                 raise LexError("newline in interpolated string")
